@@ -400,6 +400,33 @@ class Loops:
             rep.measure = f"iterator over a finite sequence of {for_ctx['N']} elements"
         if not I.quiet:
             I.loop_reports.append(rep)
+        # a loop whose every iteration writes [x+S, x+S+w) and advances x by w writes [x0+S, x_exit+S)
+        if for_ctx is None and len(backs) == 1 and int_syms:
+            sb = backs[0]
+            cur = current(sb)
+            from .interp import Write
+            for b, wl in sb.mem.items():
+                new = wl[n_mem.get(b, 0):]
+                if len(new) != 1 or new[0].q is not None or new[0].kind not in ("bytes", "fill"):
+                    continue
+                w = new[0]
+                for a, init in int_syms:
+                    A = Lin.atom(a)
+                    nv = cur.get(sym_name(a))
+                    if not isinstance(nv, IntV):
+                        continue
+                    S = w.start - A
+                    width = w.end - w.start
+                    if a in atoms_deep(S) or not width.is_const():
+                        continue
+                    if not solver.entails(sb.pc, flit(eq(nv.l, A + width))):
+                        continue
+                    vals = w.payload if w.kind == "bytes" else [w.payload]
+                    if not all(isinstance(x, IntV) and x.l.is_const() and x.l.c == vals[0].l.c for x in vals):
+                        continue
+                    for sx, _, _ in exits:
+                        I.write(sx, b, Write(init.l + S, Lin.atom(a) + S, "fill", vals[0], span=w.span, fn=w.fn))
+                    break
         # collection pushes made by the iterations are visible after the loop (any number of them)
         if for_ctx is None and backs:
             tiled = self._tiling(pre, backs, int_syms, current, sym_name)
@@ -922,7 +949,8 @@ class Loops:
             bases = set()
             for _, ws in per_back:
                 bases |= set(b for b, wl in ws.items() if wl)
-            simple = len(groups) == 1 and all(w.q is None and w.kind != "loop" for _, ws in per_back for wl in ws.values() for w in wl)
+            simple = len(groups) == 1 and not ctx.get("ps_forms") and \
+                all(w.q is None and w.kind != "loop" for _, ws in per_back for wl in ws.values() for w in wl)
             if simple:
                 sb, ws = per_back[0]
                 for b, wl in ws.items():
